@@ -1,9 +1,175 @@
-"""File-system / stdout effect model (ghost trace).  Filled in by the FS contracts (C12, C13, C15)."""
-from .values import Unsupported, NONE
+"""File-system effect model (ghost trace) for the crash / write-only-on-change properties (C12, C13).
+
+The trace of file-system *write* effects is a pre-existing list object FS_TRACE (a fixed object id).  The modelled
+primitives append effect tuples to it:
+
+    open(p, "w")            ("open_w", p)        the file is truncated (or created empty)
+    f.write(s)              ("write", p, s)      s is appended to the file opened for writing
+    os.replace(a, b)        ("replace", a, b)    atomic
+    shutil.copyfile(a, b)   ("copyfile", a, b)   b is truncated and receives a's bytes; ("copyfile_partial", a, b)
+                                                 when it fails after having started
+
+Reads are no effects.  What a read sees is a function of the path and of the number of effects so far
+(`fs_text(p, n)`, `fs_readable(p, n)`), so contents observed before and after writes are unrelated symbols.
+Every primitive that can fail raises OSError on a branch of its own (nondeterministic failure).  The trace is
+append-only by construction (program code cannot reach it); a contract that lists `$fs` in `modifies` lets the trace
+grow, a contract that does not must leave its length unchanged (frame obligation `#frame:fs-trace`)."""
+import z3
+
+from .z import V, Int, simp
+from .values import SV, Unsupported, NONE, mk_py, mk_str, mk_bool, mk_tup, mk_ref, mk_int, box
+
+S = z3.StringSort()
+B = z3.BoolSort()
+FS_TRACE = z3.Int("fs_trace_obj")
+fs_text = z3.Function("fs_text", S, Int, S)            # contents of a readable file after n effects
+fs_readable = z3.Function("fs_readable", S, Int, B)     # open(p, "r") succeeds after n effects
+fs_writable = z3.Function("fs_writable", S, Int, B)     # open(p, "w") succeeds after n effects
+fs_islink = z3.Function("fs_islink", S, Int, B)
+fs_exists = z3.Function("fs_exists", S, Int, B)
+fs_op_ok = z3.Function("fs_op_ok", S, S, Int, B)        # os.replace / copyfile(a, b) succeeds after n effects
+fs_op_started = z3.Function("fs_op_started", S, S, Int, B)  # a failing copyfile had already truncated b
+
+TRUSTED = {
+    "open / file.read / file.write": "file-system model: reads see fs_text(path, #effects so far); open(..., 'w') "
+                                     "truncates, write appends; each may raise OSError",
+    "os.replace": "atomic rename effect or OSError",
+    "shutil.copyfile": "truncate + copy effect; a failure may leave a partial destination",
+    "os.path.islink / exists": "uninterpreted functions of the path and the number of effects so far",
+}
+
+
+class FileH:
+    def __init__(self, path, mode, epoch):
+        self.path, self.mode, self.epoch = path, mode, epoch
+
+
+class FileMethod:
+    def __init__(self, fh, name):
+        self.fh, self.name = fh, name
+
+
+def trace_ref(ex, ctx, st):
+    from .schema import cls_of
+    ctx.assume(FS_TRACE >= 0, "fs-model:trace-is-a-pre-existing-list", glob=True)
+    ctx.assume(cls_of(FS_TRACE) == ex.reg.classes["list"].tag, "fs-model:trace-is-a-pre-existing-list", glob=True)
+    ln = z3.Select(ex.heap_get(st, "$len"), FS_TRACE)
+    ctx.assume(ln >= 0, "container-length-nonnegative")
+    return mk_ref(FS_TRACE, "list")
+
+
+def epoch(ex, ctx, st):
+    trace_ref(ex, ctx, st)
+    return simp(z3.Select(ex.heap_get(st, "$len"), FS_TRACE))
+
+
+def emit(ex, ctx, st, *items):
+    from . import containers
+    t = trace_ref(ex, ctx, st)
+    containers.list_append(ex, ctx, st, t, mk_tup(list(items)))
+
+
+def _str(ex, ctx, st, v, node):
+    from .builtins_model import _need_str
+    return _need_str(ex, ctx, st, v, node)
+
+
+def b_open(ex, ctx, st, args, kwargs, node):
+    path = _str(ex, ctx, st, args[0], node)
+    mode = args[1] if len(args) > 1 else kwargs.get("mode")
+    m = "r"
+    if mode is not None:
+        if mode.k != "str" or not z3.is_string_value(simp(mode.t)):
+            raise Unsupported("open() with a non-constant mode")
+        m = simp(mode.t).as_string()
+    n = epoch(ex, ctx, st)
+    if m == "r":
+        if not ctx.branch(fs_readable(path.t, n)):
+            ex.raise_(st, "OSError", node)
+        return mk_py(FileH(path, "r", n))
+    if m == "w":
+        if not ctx.branch(fs_writable(path.t, n)):
+            ex.raise_(st, "OSError", node)
+        emit(ex, ctx, st, mk_str("open_w"), path)
+        return mk_py(FileH(path, "w", n))
+    raise Unsupported(f"open() mode {m!r}")
+
+
+def file_method(ex, ctx, st, fm, args, kwargs, node):
+    fh = fm.fh
+    if fm.name == "write" and fh.mode == "w":
+        s = _str(ex, ctx, st, args[0], node)
+        emit(ex, ctx, st, mk_str("write"), fh.path, s)
+        return mk_int(z3.Length(s.t))
+    if fm.name == "read" and fh.mode == "r":
+        text = fs_text(fh.path.t, fh.epoch)
+        if not args:
+            return mk_str(text)
+        k = ex.need_int(ctx, st, args[0], node)
+        return mk_str(simp(z3.SubString(text, 0, z3.If(k.t < 0, z3.Length(text), k.t))))
+    raise Unsupported(f"file.{fm.name} in mode {fh.mode}")
 
 
 def exec_with(ex, ctx, st, s):
-    raise Unsupported("with statement")
+    if len(s.items) != 1:
+        raise Unsupported("with statement with several items")
+    it = s.items[0]
+    v = ex.eval(ctx, st, it.context_expr)
+    if not (v.k == "py" and isinstance(v.py, FileH)):
+        raise Unsupported("with statement on something else than open(...)")
+    if it.optional_vars is not None:
+        ex.assign_target(ctx, st, it.optional_vars, v)
+    ex.exec_block(ctx, st, s.body)  # close() has no modelled effect; exceptions propagate
+
+
+def x_replace(ex, ctx, st, args, kwargs, node):
+    a = _str(ex, ctx, st, args[0], node)
+    b = _str(ex, ctx, st, args[1], node)
+    n = epoch(ex, ctx, st)
+    if not ctx.branch(fs_op_ok(a.t, b.t, n)):
+        ex.raise_(st, "OSError", node)
+    emit(ex, ctx, st, mk_str("replace"), a, b)
+    return NONE
+
+
+def x_copyfile(ex, ctx, st, args, kwargs, node):
+    a = _str(ex, ctx, st, args[0], node)
+    b = _str(ex, ctx, st, args[1], node)
+    n = epoch(ex, ctx, st)
+    if not ctx.branch(fs_op_ok(a.t, b.t, n)):
+        if ctx.branch(fs_op_started(a.t, b.t, n)):
+            emit(ex, ctx, st, mk_str("copyfile_partial"), a, b)
+        ex.raise_(st, "OSError", node)
+    emit(ex, ctx, st, mk_str("copyfile"), a, b)
+    return b
+
+
+def x_islink(ex, ctx, st, args, kwargs, node):
+    p = _str(ex, ctx, st, args[0], node)
+    return mk_bool(fs_islink(p.t, epoch(ex, ctx, st)))
+
+
+def x_exists(ex, ctx, st, args, kwargs, node):
+    p = _str(ex, ctx, st, args[0], node)
+    return mk_bool(fs_exists(p.t, epoch(ex, ctx, st)))
+
+
+def havoc_trace(ex, ctx, st):
+    """a callee whose contract lists `$fs`: the trace may have grown; what was there stays"""
+    trace_ref(ex, ctx, st)
+    ln = ex.heap_get(st, "$len")
+    el = ex.heap_get(st, "$elems")
+    n0 = z3.Select(ln, FS_TRACE)
+    a0 = z3.Select(el, FS_TRACE)
+    n1 = ctx.fresh("fs_n", Int, tuple(st.idx))
+    a1 = ctx.fresh("fs_ev", a0.sort(), tuple(st.idx))
+    q = z3.Int(f"fsq!{ctx.explorer.uid}.{ctx.fresh_n}")
+    ctx.fresh_n += 1
+    ctx.assume(n1 >= n0, "fs-model:trace-append-only")
+    ctx.assume(z3.ForAll([q], z3.Implies(z3.And(q >= 0, q < n0), z3.Select(a1, q) == z3.Select(a0, q))),
+               "fs-model:trace-append-only")
+    st.heap["$len"] = z3.Store(ln, FS_TRACE, n1)
+    st.heap["$elems"] = z3.Store(el, FS_TRACE, a1)
 
 
 def do_print(ex, ctx, st, args, kwargs, node):
